@@ -96,6 +96,13 @@ def common (o : Obs) (inDt : Bool) (nSet nClr nAckN : Nat) : List (Bool × Claus
     (o.nClr != nClr, .clearedEventOnce),
     (o.handled != (o.problem && (inDt || o.ack != .none)), .handledIff) ]
 
+/-- A look at which nothing but the running out of the acknowledgement may have happened (time advance, dropped
+    result, refused acknowledge, timer pump, downtime): it is gone iff its expiry has passed — then with one cleared
+    event —, nothing is set, nothing is notified. -/
+def lookChecks (sp : SpecSt) (now : Int) (inDt : Bool) (frame : Clause) (o : Obs) : List (Bool × Clause) :=
+  [ (ranOut sp now && o.ack != .none, .expiryClears), (o.ack != ackAt sp now, frame) ] ++
+    common o inDt 0 (if ranOut sp now then 1 else 0) 0
+
 /-- Check one (operation, observation) pair.  `sp` is the bookkeeping before the operation. -/
 def specStep (c : Cfg) (sp : SpecSt) (op : Op) (o : Obs) : Option Clause :=
   let a0 := ackAt sp op.now
@@ -121,8 +128,7 @@ def specStep (c : Cfg) (sp : SpecSt) (op : Op) (o : Obs) : Option Clause :=
                  .commentsRemoved) ])
     else
       -- a result that was not accepted changes nothing
-      first ([ (ranOut sp op.now && o.ack != .none, .expiryClears),
-               (o.ack != a0, .unchangedKeeps) ] ++ common o sp.inDt 0 c0 0)
+      first (lookChecks sp op.now sp.inDt .unchangedKeeps o)
   | .ack via sticky notify _ expiry now =>
     if o.acc then
       let e := requestedExpiry via expiry
@@ -133,21 +139,14 @@ def specStep (c : Cfg) (sp : SpecSt) (op : Op) (o : Obs) : Option Clause :=
                (!gone && o.ack != ackTypeOf sticky, .ackSet) ] ++
              common o sp.inDt 1 (c0 + if gone then 1 else 0) (if notify then 1 else 0))
     else
-      first ([ (ranOut sp op.now && o.ack != .none, .expiryClears),
-               (o.ack != a0, .ackFrame) ] ++ common o sp.inDt 0 c0 0)
+      first (lookChecks sp op.now sp.inDt .ackFrame o)
   | .remove _ _ =>
     first ([ (o.ack != .none, .ackFrame) ] ++ common o sp.inDt 0 (if sp.ack != .none then 1 else 0) 0)
-  | .advance _ =>
-    first ([ (ranOut sp op.now && o.ack != .none, .expiryClears),
-             (o.ack != a0, .ackFrame) ] ++ common o sp.inDt 0 c0 0)
-  | .pump _ _ =>
-    -- the comment-expiry timer touches comments only
-    first ([ (ranOut sp op.now && o.ack != .none, .expiryClears),
-             (o.ack != a0, .ackFrame) ] ++ common o sp.inDt 0 c0 0)
-  | .downtime on _ =>
-    -- a downtime neither sets nor clears an acknowledgement
-    first ([ (ranOut sp op.now && o.ack != .none, .expiryClears),
-             (o.ack != a0, .ackFrame) ] ++ common o on 0 c0 0)
+  | .advance _ => first (lookChecks sp op.now sp.inDt .ackFrame o)
+  -- the comment-expiry timer touches comments only
+  | .pump _ _ => first (lookChecks sp op.now sp.inDt .ackFrame o)
+  -- a downtime neither sets nor clears an acknowledgement
+  | .downtime on _ => first (lookChecks sp op.now on .ackFrame o)
 
 /-- Bookkeeping after the look: read off the observation; the requested expiry is remembered when an
     acknowledgement is accepted and forgotten when none is set any more. -/
